@@ -16,6 +16,7 @@ monitor (written from the property text, independent of the model)
 import html
 import itertools
 import os
+import threading
 import posixpath
 import re
 import shutil
@@ -601,7 +602,30 @@ def run(ctx):
             AUDIT.events = []
             AUDIT.on = True
             try:
-                ans = call(cfg.app, env)
+                box = []
+                worker = threading.Thread(
+                    target=lambda: box.append(call(cfg.app, env)),
+                    daemon=True)
+                worker.start()
+                worker.join(10)
+                if not box:
+                    # e.g. a named pipe opened for reading: the request
+                    # never returns; release the reader and go on
+                    ctx.violation("request-never-returns", dict(
+                        cfg.describe(), REQUEST_METHOD=method,
+                        PATH_INFO=wire))
+                    if tree.fifo:
+                        try:
+                            fd = os.open(tree.fifo,
+                                         os.O_WRONLY | os.O_NONBLOCK)
+                            os.close(fd)
+                        except OSError:
+                            pass
+                    worker.join(5)
+                    if not box:
+                        raise RuntimeError("request still blocked: %r %r"
+                                           % (method, wire))
+                ans = box[0]
             finally:
                 AUDIT.on = False
             events = []
